@@ -36,7 +36,7 @@ func runC02R4(c *Ctx, r *Rep) {
 		if s.callee != nil && !inModule(s.callee) {
 			continue
 		}
-		if ssaFuncID(s.fn) == "vm.RunFrame" && s.callee == nil {
+		if ssaFuncID(s.fn) == "vm.RunFrame" && (s.callee == nil || callsJumpTable(c, s.callee)) {
 			continue // the dispatch call: decided structurally below
 		}
 		id := ssaFuncID(s.fn)
@@ -139,7 +139,9 @@ func runFrameDispatchCheck(c *Ctx, r *Rep) {
 				continue
 			}
 			if _, isIdx := unparen(call.Fun).(*ast.IndexExpr); !isIdx {
-				continue
+				if f := Callee(info, call); f == nil || !callsJumpTable(c, f) {
+					continue
+				}
 			}
 			if i+1 >= len(blk.List) {
 				continue
@@ -193,4 +195,22 @@ func runFrameDispatchCheck(c *Ctx, r *Rep) {
 	if !found {
 		r.undecided("vm|RunFrame|dispatch error", fd.Pos(), "dispatch call `err = jumpTable[opcode](…)` not found")
 	}
+}
+
+// callsJumpTable: the function's body calls through vm.jumpTable (it is the handler dispatcher).
+func callsJumpTable(c *Ctx, f *types.Func) bool {
+	fd := c.Decl(f)
+	if fd == nil || fd.Body == nil {
+		return false
+	}
+	found := false
+	ast.Inspect(fd.Body, func(n ast.Node) bool {
+		if call, ok := n.(*ast.CallExpr); ok {
+			if ix, ok := unparen(call.Fun).(*ast.IndexExpr); ok && exprStr(ix.X) == "jumpTable" {
+				found = true
+			}
+		}
+		return true
+	})
+	return found
 }
